@@ -157,7 +157,7 @@ theorem txAcceptedAux_sort {K : Keys} {W : Tx → Prop} {rank : TxId → Nat} {u
     ChainOK u0 ν s → PGoodP K W u0 ν s → SortInvP K s → SortInvP K (txAcceptedAux K mf fuel s recs d) := by
   intro fuel
   induction fuel with
-  | zero => intro s recs d _ _ q; exact q
+  | zero => intro s recs d _ _ q hp; cases hp
   | succ n ih =>
     intro s recs d hc h q
     unfold txAcceptedAux
@@ -243,6 +243,40 @@ theorem submitNet_sort {K : Keys} {W : Tx → Prop} {rank : TxId → Nat} {u0 : 
     · exact txAccepted_sort U mf _ _ (hc.of_env e2) g2 q2
     · exact q2
 
+/-- LoadRawTx's "make as own" changes no field the sorted-list invariant reads (keys, inputs and MemInputs stay) -/
+theorem markLocal_sort (K : Keys) (s : State) (id : TxId) (h : SortInv K s) : SortInv K (markLocal K s id) := by
+  unfold markLocal
+  split
+  · rename_i r hr
+    intro hd hw
+    have q := h hd hw
+    have look : ∀ x t', (s.pool.set (K.bidx id) { r with loc := true }).get? x = some t' →
+        ∃ t0, s.pool.get? x = some t0 ∧ memParents K t' = memParents K t0 := by
+      intro x t' hx
+      by_cases e : x = K.bidx id
+      · rw [e, AList.get?_set_self] at hx
+        cases hx
+        exact ⟨r, by rw [e]; exact hr, rfl⟩
+      · rw [AList.get?_set_other _ _ _ _ e] at hx
+        exact ⟨t', hx, rfl⟩
+    refine ⟨q.asc, q.bnd, ?_, ?_, ?_⟩
+    · intro b
+      show b ∈ s.sorted ↔ ((s.pool.set (K.bidx id) { r with loc := true }).get? b).isSome = true
+      by_cases e : b = K.bidx id
+      · rw [e, AList.get?_set_self]
+        have := q.sync (K.bidx id)
+        rw [hr] at this
+        simpa using this
+      · rw [AList.get?_set_other _ _ _ _ e]; exact q.sync b
+    · refine List.Pairwise.imp ?_ q.pf
+      intro x y hxy t' ht'
+      obtain ⟨t0, h0, e⟩ := look x t' ht'
+      rw [e]; exact hxy t0 h0
+    · intro b t' hb
+      obtain ⟨t0, h0, e⟩ := look b t' hb
+      rw [e]; exact q.irr b t0 h0
+  · exact h
+
 theorem submitLocal_sort {K : Keys} {W : Tx → Prop} {rank : TxId → Nat} {u0 : UT} {ν : OutPoint → Nat}
     (U : Univ2 K W rank u0 ν) (mf : Nat) (s : State) (t : Tx) (hc : ChainOK u0 ν s)
     (h : PGoodP K W u0 ν s) (ht : W t) (q : SortInvP K s) : SortInvP K (submitLocal K mf s t).2 := by
@@ -255,7 +289,7 @@ theorem submitLocal_sort {K : Keys} {W : Tx → Prop} {rank : TxId → Nat} {u0 
     SortInvP.lift e1 (fun x => x.same (rejDeleteByIdx_same K s _)) q
   have c1 := hc.of_env e1
   split
-  · exact q1
+  · exact SortInvP.lift (markLocal_env K _ _) (markLocal_sort K _ t.id) q1
   · have e2 := processTx_env K mf (rejDeleteByIdx K s (K.bidx t.id)) t { trusted := true, loc := true }
     have g2 : PGoodP K W u0 ν (processTx K mf (rejDeleteByIdx K s (K.bidx t.id)) t { trusted := true, loc := true }).2 :=
       PGoodP.lift e2 (fun g => processTx_good U mf _ t _ c1 g ht (by intro hu; cases hu)) g1
